@@ -129,6 +129,9 @@ def main():
         b["detail"] = f"in={c['in']} attr=({c['attr']}) observed={ {k[1]: v for k, v in observed.items() if k[0] == b['case']} }"
     for cid, why in c01.CRASHED.items():
         bad.append({"case": cid, "conjunct": "runs-to-completion", "cls": "", "detail": f"in={byid[cid]['in']} {why}"})
+    # every program of the domain is a legitimate use: the expansion has to compile
+    for cid in dropped:
+        bad.append({"case": cid, "conjunct": "compiles", "cls": "", "detail": f"in={byid[cid]['in']} diag={[d['message'][:140] for d in dropped[cid]][:2]}"})
     if dropped:
         first = sorted(dropped)[0]
         chk.cov["rejected_example"] = {"in": byid[first]["in"], "diag": [d["message"][:160] for d in dropped[first]][:2]}
